@@ -1052,4 +1052,92 @@ theorem wstep_waiting (mn mx : Nat) (s : St) (w : Wid) (x : Worker) (hx : s.ws[w
     (wstep mn mx s w).ws[w]? = some { x with phase := .woken } := by
   unfold wstep; simp [hx, hp, he, St.setW, getElem?_updW]
 
+
+theorem closed_step_basic (mn mx : Nat) (s : St) (a : Act) (h : Inv mx s) (hc : s.closed = true) :
+    (step mn mx s a).closed = true ∧ (step mn mx s a).accepted = s.accepted ∧
+    (∀ j, j ∈ s.fin → j ∈ (step mn mx s a).fin) := by
+  cases a with
+  | submit pick =>
+    simp only [step]; rw [call_process_closed mn mx pick s hc]
+    exact ⟨hc, rfl, fun j hj => hj⟩
+  | finish j =>
+    show ({ s with fin := s.fin ++ [j] } : St).closed = true ∧ _
+    exact ⟨hc, rfl, fun j hj => List.mem_append_left _ hj⟩
+  | close =>
+    simp only [step]; rw [call_close_closed mn mx s hc]
+    exact ⟨hc, rfl, fun j hj => hj⟩
+  | wstep v =>
+    simp only [step]
+    cases hy : s.ws[v]? with
+    | none =>
+      have : wstep mn mx s v = s := by unfold wstep; simp [hy]
+      rw [this]; exact ⟨hc, rfl, fun j hj => hj⟩
+    | some y =>
+      obtain ⟨y', st', e', heq, _⟩ := wstep_closed mn mx s v y h hc hy
+      rw [heq]; exact ⟨hc, rfl, fun j hj => hj⟩
+
+theorem closed_run (mn mx : Nat) (s : St) (acts : List Act) (h : Inv mx s) (hc : s.closed = true) :
+    (run mn mx s acts).closed = true ∧ (run mn mx s acts).accepted = s.accepted := by
+  induction acts generalizing s with
+  | nil => exact ⟨hc, rfl⟩
+  | cons a as ih =>
+    simp only [run, List.foldl_cons]
+    obtain ⟨h1, h2, _⟩ := closed_step_basic mn mx s a h hc
+    obtain ⟨h3, h4⟩ := ih _ (inv_step mn mx s a h) h1
+    exact ⟨h3, by rw [← h2]; exact h4⟩
+
+/-- In a closed pool whose accepted jobs have all been allowed to end, a worker that still has
+    `rank` statements to go has left its loop after that many steps of its own — whatever else is
+    scheduled in between. -/
+theorem close_exits_aux (mn mx : Nat) (w : Wid) (acts : List Act) :
+    ∀ (s : St) (x : Worker), Inv mx s → s.closed = true → (∀ p, p ∈ s.accepted → p.1 ∈ s.fin) →
+      s.ws[w]? = some x → rank x ≤ acts.count (.wstep w) →
+      ∃ x', (run mn mx s acts).ws[w]? = some x' ∧ x'.phase = .exited := by
+  induction acts with
+  | nil =>
+    intro s x _ _ _ hx hr
+    simp only [List.count_nil, Nat.le_zero_eq] at hr
+    exact ⟨x, hx, rank_zero x hr⟩
+  | cons a as ih =>
+    intro s x h hc hfin hx hr
+    simp only [run, List.foldl_cons]
+    obtain ⟨h1, h2, h3, x1, hx1, hown, hother⟩ := closed_step mn mx s a w x h hc hx
+    have hfin' : ∀ p, p ∈ (step mn mx s a).accepted → p.1 ∈ (step mn mx s a).fin := by
+      intro p hp; rw [h2] at hp; exact h3 _ (hfin p hp)
+    refine ih _ x1 (inv_step mn mx s a h) h1 hfin' hx1 ?_
+    by_cases ha : a = .wstep w
+    · subst ha
+      simp only [List.count_cons_self] at hr
+      rcases hown rfl with h4 | ⟨h4, h5⟩
+      · omega
+      · subst h4
+        rcases h5 with h5 | ⟨j, h5, h6⟩
+        · have : rank x1 = 0 := by unfold rank; simp [h5]
+          omega
+        · exfalso
+          have hw := h.wk w x1 hx
+          unfold WInv Own at hw; simp only [h5] at hw
+          exact h6 (hfin (j, w) hw.2.2.1.1)
+    · have : x1 = x := hother ha
+      subst this
+      rw [List.count_cons] at hr
+      have : (a == Act.wstep w) = false := by simp [ha]
+      simpa [this] using hr
+
+theorem rank_le (x : Worker) : rank x ≤ 10 := by
+  unfold rank; cases x.phase <;> cases x.slot <;> simp
+
+theorem inj_of_nodup_map {α β : Type} (f : α → β) (l : List α) (h : (l.map f).Nodup) (a b : α)
+    (ha : a ∈ l) (hb : b ∈ l) (hab : f a = f b) : a = b := by
+  induction l with
+  | nil => cases ha
+  | cons c l ih =>
+    simp only [List.map_cons, List.nodup_cons, List.mem_map, not_exists, not_and] at h
+    simp only [List.mem_cons] at ha hb
+    rcases ha with rfl | ha <;> rcases hb with rfl | hb
+    · rfl
+    · exact absurd hab.symm (h.1 b hb)
+    · exact absurd hab (h.1 a ha)
+    · exact ih h.2 ha hb
+
 end Pyro.Pool
